@@ -31,7 +31,8 @@ func (Prop) Configs(tier string) []string {
 func (Prop) SelfTest() error { return aeadref.SelfTest() }
 
 func (Prop) Rule() string {
-	return "E2, GCM: full product plaintext length (quick 0..223, thorough 0..600) x AAD length {0..33,63..65,127..129,8191..8193 (+143..145,255..257 thorough)} x " +
+	return "Call histories: eight AEAD objects (GCM and CCM of several sizes) each driven through a sequence of 16 (plaintext, AAD) sizes going up and down, twice, every Seal/Open compared with the reference; constructors must leave the key untouched. " +
+		"E2, GCM: full product plaintext length (quick 0..223, thorough 0..600) x AAD length {0..33,63..65,127..129,8191..8193 (+143..145,255..257 thorough)} x " +
 		"(nonce size, tag size) in {1..20,32,64,128}x{16} u {12}x{12..15} x Seal dst mode {nil, 5-byte prefix with exactly fitting capacity ending at a guard page, in place, prefix with too small capacity} " +
 		"x Open dst mode (same four), for the AEAD the SM4 block selects itself (native) and for crypto/cipher's generic GCM over a wrapper hiding NewGCM/NewCTR (hidden; quick tier: AAD lengths {0,1,13,15,16,17,32,33,64,129,8192} only); " +
 		"oracle: Seal output = reference ciphertext||tag, dst prefix untouched, inputs unmodified, Open(reference ciphertext) = plaintext with nil error; every slice handed to the library ends at a PROT_NONE page, " +
@@ -139,6 +140,7 @@ func eq(a, b []byte) bool {
 }
 
 func (Prop) Run(c *engine.Ctx) {
+	runHistory(c)
 	runGCM(c)
 	runCCM(c)
 }
